@@ -67,7 +67,8 @@ Inductive action :=
   | AChange (empty : bool) (v : N) (marsh : bool)
   | AAdd (v : N) (neg : bool) (idx : N) (marsh : bool)
   | ARemove (neg : bool) (idx : N)
-  | APanic (p : pval).
+  | APanic (p : pval)
+  | AQueryEvent.                              (* starts another query event on the QueryRequest (its own LTS instance) *)
 
 Inductive ev := EvChange (v : N) | EvAdd (v idx : N) | EvRemove (idx : N).
 
@@ -150,6 +151,7 @@ Definition act (ty : rtype) (s : rst) (a : action) : ares :=
     | _ => if neg then Panic s (VString (SLib 7)) else Cont (add_ev s (EvRemove idx) true)
     end
   | APanic p => Panic s p
+  | AQueryEvent => Cont s
   end.
 
 Fixpoint run_script (ty : rtype) (s : rst) (sc : list action) : ares :=
